@@ -2,7 +2,7 @@ SPECIFICATION Spec
 CONSTANTS
   Bnds <- BndsAll
   Prefixes <- StdPrefixes
-  MaxTail = 8
+  MaxTail = 7
   FieldLimits = {1000}
   DeclSlack = TRUE
   Mut = "none"
